@@ -17,7 +17,7 @@ StateChecks(x, it) ==
 TStart == /\ Ev.op = "init" /\ items' = Logged /\ xf' = Ev.xf
           /\ StateChecks(Ev.xf, Logged)
 
-TOp == /\ Ev.op \in {"append", "insert", "delidx", "delkey", "setitem", "setvalue", "get"}
+TOp == /\ Ev.op \in {"append", "insert", "delidx", "delkey", "setitem", "setvalue", "get", "setidx", "delslice"}
        /\ items' = Logged /\ UNCHANGED xf
        /\ Chk("C15.Ids",       S!C_Ids(xf, items, Ev, Logged))
        /\ Chk("C15.Exc",       S!C_Exc(xf, items, Ev, Logged))
